@@ -782,11 +782,16 @@ class Ctx:
                     f"kwkeys:{self.canon(sv, st)}:")]
                 sub = [f for f in st.facts if f.startswith(
                     f"kwsub:{self.canon(sv, st)}:")]
+                lit = _dict_literal_keys(sv)
                 if got:
                     keys |= set(filter(None, got[0].split(":", 2)[2].split(",")))
                 elif sub:
                     keys |= set(filter(None, sub[0].split(":", 2)[2].split(",")))
                     exact = False
+                elif lit is not None:
+                    keys |= set().union(*lit)
+                    if len({frozenset(a) for a in lit}) != 1:
+                        exact = False
                 else:
                     known = False
             if known:
